@@ -994,3 +994,112 @@ Example C01_partial_model_nonvacuous :
      | _, _ => False
      end.
 Proof. cbv zeta. split; [exact ex_idna_clean_ok|]. vm_compute. repeat split. Qed.
+
+(* ===== coverage relative to Known_C01 (task c01asm) ===== *)
+From RU Require Import Proofs.C01_EqCover.
+
+(* no scheme and no base: failure on both sides (the model: ParseError::RelativeUrlWithoutBase); part of
+   in_proved_class3 None *)
+Theorem C01_eq_noscheme_nobase : forall dbg hp hpo hd ovr shp input,
+  in_class_noscheme_nobase input = true ->
+  (exists u, spec_basic_url_parse shp input None = BFailure u)
+  /\ parse_url dbg hp hpo hd ovr None input = PErr RelativeUrlWithoutBase.
+Proof. exact class_noscheme_nobase. Qed.
+Print Assumptions C01_eq_noscheme_nobase.
+
+(* the exclusions of the three non-special no-base classes lie inside Known_C01: authority exactly ":@"
+   needs ":@" in the text (class 4), a port followed by a backslash needs a backslash (class 3), a ".."
+   meeting a drive-letter-shaped segment needs a drive-letter-shaped piece in the raw text (class 2; without
+   backslashes the Standard's non-special path state is its special one, so the raw-text lemma of
+   C01_special_class_complete applies) *)
+Theorem C01_nonspecial_classes_complete : forall input sch R,
+  spec_scheme (spec_clean input) = Some (sch, R) -> is_special_scheme sch = false -> known_c01 None input = 0 ->
+  in_class_opaque input || in_class_pathonly input || in_class_authority input = true.
+Proof. exact nonspecial_nobase_covers. Qed.
+Print Assumptions C01_nonspecial_classes_complete.
+
+(* hence, without a base, the proved classes contain EVERY input outside Known_C01 *)
+Theorem C01_class3_complete_nobase : forall input,
+  known_c01 None input = 0 -> in_proved_class3 None input = true.
+Proof. exact nobase_covers. Qed.
+Print Assumptions C01_class3_complete_nobase.
+
+(* and against a good_base pair with a non-special scheme (opaque path or not) they contain every
+   scheme-less reference outside Known_C01 - the drive-letter-shaped segments of the Standard's base record
+   that the path-relative class must avoid show in the path of the model's base record (Known_C01 class 2
+   reads the base path) *)
+Theorem C01_class3_complete_nonspecial_base : forall dbg shs b sb input,
+  good_base dbg shs b sb -> is_special_scheme (su_scheme sb) = false ->
+  spec_scheme (spec_clean input) = None -> known_c01 (Some b) input = 0 ->
+  in_proved_class3 (Some sb) input = true.
+Proof. exact nonspecial_base_covers. Qed.
+Print Assumptions C01_class3_complete_nonspecial_base.
+
+(* C01_statement for base = None, every input: outside Known_C01 the Standard succeeds -> the model succeeds
+   with a `related` record (same ten API strings; a good base again) or answers Overflow and the Standard's
+   href exceeds u32::MAX bytes; the Standard fails -> the model returns Err.  What separates this from the
+   base = None instance of C01_statement: the host functions are abstract with the one-string hypothesis
+   host_hyp3 (next theorem: discharged for the host model relative to IdnaOK), the ten strings are read
+   through api_of_model (inside `related`), Overflow is a named outcome, usv_list input (Rust &str). *)
+Theorem C01_statement_nobase : forall dbg hp hpo hd shp shs input,
+  usv_list input -> known_c01 None input = 0 -> host_hyp3 hp hpo hd shp shs None input ->
+  agree_good dbg shs (parse_url dbg hp hpo hd None None input) (spec_basic_url_parse shp input None).
+Proof. exact statement_nobase. Qed.
+Print Assumptions C01_statement_nobase.
+
+Theorem C01_statement_nobase_model : forall dbg idna, IdnaOK idna -> forall input,
+  usv_list input -> known_c01 None input = 0 ->
+  agree_good dbg spec_host_serializer
+    (parse_url dbg (host_parse idna) host_parse_opaque host_display None None input)
+    (spec_basic_url_parse (spec_host_parser idna) input None).
+Proof. exact statement_nobase_model. Qed.
+Check C01_statement_nobase_model : forall dbg idna, IdnaOK idna -> forall input,
+  usv_list input -> known_c01 None input = 0 ->
+  let m := parse_url dbg (host_parse idna) host_parse_opaque host_display None None input in
+  match spec_basic_url_parse (spec_host_parser idna) input None with
+  | BDone su => spec_base_ok su = true
+                /\ ((m = PErr Overflow /\ U32_MAX_P < nlen (get_href spec_host_serializer su))
+                    \/ exists u, m = POk u /\ related dbg spec_host_serializer u su)
+  | BFailure _ => exists e, m = PErr e
+  | BOutOfFuel => False
+  end.
+Print Assumptions C01_statement_nobase_model.
+
+(* C01_statement for a good_base pair with a non-special scheme and a scheme-less reference *)
+Theorem C01_statement_nonspecial_base : forall dbg hp hpo hd shp shs b sb input,
+  usv_list input -> good_base dbg shs b sb -> is_special_scheme (su_scheme sb) = false ->
+  spec_scheme (spec_clean input) = None -> known_c01 (Some b) input = 0 ->
+  host_hyp3 hp hpo hd shp shs (Some sb) input ->
+  agree_good dbg shs (parse_url dbg hp hpo hd None (Some b) input) (spec_basic_url_parse shp input (Some sb)).
+Proof. exact statement_nonspecial_base. Qed.
+Print Assumptions C01_statement_nonspecial_base.
+
+Theorem C01_statement_nonspecial_base_model : forall dbg idna, IdnaOK idna -> forall b sb input,
+  usv_list input -> good_base dbg spec_host_serializer b sb -> is_special_scheme (su_scheme sb) = false ->
+  spec_scheme (spec_clean input) = None -> known_c01 (Some b) input = 0 ->
+  agree_good dbg spec_host_serializer
+    (parse_url dbg (host_parse idna) host_parse_opaque host_display None (Some b) input)
+    (spec_basic_url_parse (spec_host_parser idna) input (Some sb)).
+Proof. exact statement_nonspecial_base_model. Qed.
+Print Assumptions C01_statement_nonspecial_base_model.
+
+(* non-vacuity: the inputs of C01_partial_model_nonvacuous are outside Known_C01 (also against the parse
+   result as base), "x" without base is in the no-scheme class and fails on both sides; the premises are
+   needed: "n://:@/", "n://h:8\" and "n:/C|/.." are inside Known_C01 (C01_known_classes) and the sides differ
+   on them (C01_eq_authority_nonvacuous, C01_eq_pathonly_nonvacuous) *)
+Example C01_statement_nobase_nonvacuous :
+  let idna := ex_idna_clean in
+  let shp := spec_host_parser idna in
+  let P base i := parse_url true (host_parse idna) host_parse_opaque host_display None base i in
+  let i1 := [32; 78; 58; 47; 47; 117; 64; 72; 46; 120; 58; 48; 56; 48; 47; 97; 47; 98; 47; 99; 63; 113] in
+  let i2 := [46; 46; 47; 100; 47; 46; 47; 101; 35; 102] in
+  let i4 := [104; 84; 84; 112; 58; 92; 92; 101; 120; 97; 109; 112; 108; 101; 46; 99; 111; 109; 58; 56; 48; 47; 120; 47; 46; 46; 47; 121] in
+  known_c01 None i1 = 0 /\ known_c01 None i4 = 0 /\ known_c01 None [120] = 0
+  /\ in_class_noscheme_nobase [120] = true
+  /\ match P None [120], spec_basic_url_parse shp [120] None with PErr _, BFailure _ => True | _, _ => False end
+  /\ match P None i1, spec_basic_url_parse shp i1 None with
+     | POk u1, BDone su1 => known_c01 (Some u1) i2 = 0 /\ is_special_scheme (su_scheme su1) = false
+                            /\ spec_scheme (spec_clean i2) = None
+     | _, _ => False
+     end.
+Proof. vm_compute. repeat split. Qed.
